@@ -531,6 +531,20 @@ func TestC20_GsxLoop(t *testing.T) {
 					}
 				}
 			}
+			// ... or the requester's next request for this channel (it restarted, or it resumed:
+			// a requester-side unpause is a new graphsync request): the incoming-request hook
+			// runs on the same loop
+			newReq := rapid.IntRange(0, 3).Draw(t, "newRequestArrivedFirst") == 0
+			var newID graphsync.RequestID
+			if newReq {
+				newID = graphsync.NewRequestID()
+				rd := &dbl.ReqData{RID: newID, RootCid: simpleCid(1), Sel: strNode("sel"), Typ: graphsync.RequestTypeNew,
+					Exts: dbl.ExtMap([]graphsync.ExtensionData{{Name: extension.ExtensionDataTransfer1_1, Data: c.openMsg(true).ToIPLD()}})}
+				cc := c
+				r.gs.QueueOnLoop(func() { r.gs.IncomingRequestHook(cc.other, rd, &dbl.InReqActions{}) })
+				crossed++
+				ahead += " + a new request for this channel"
+			}
 			call := rapid.SampledFrom([]string{"resume", "resume-with-message", "pause"}).Draw(t, "call")
 			m.logf("%s(%s) while the loop first delivers: %s", call, chidStr(c.chid), ahead)
 			umsg := message.UpdateResponse(c.tid, false)
@@ -545,7 +559,7 @@ func TestC20_GsxLoop(t *testing.T) {
 				}
 			})
 			if !ok {
-				m.fail("C20/call-blocked-behind-graphsync-loop", "%s did not return within %s: it waits for graphsync's run loop while the loop waits to deliver a requestor-cancelled notification for the same channel", call, watchdog)
+				m.fail("C20/call-blocked-behind-graphsync-loop", "%s did not return within %s: it waits for graphsync's run loop while the loop waits, in a hook or listener of the same channel, for the channel lock the call holds", call, watchdog)
 			}
 			if call == "resume-with-message" && c.reqCancel {
 				// the requester was already known to be away: the message waits for its next request
@@ -557,6 +571,14 @@ func TestC20_GsxLoop(t *testing.T) {
 			}
 			for _, o := range delivered {
 				o.reqCancel = true
+			}
+			if newReq {
+				// the new request is the channel's current one now; what was queued for the requester went out with it
+				c.current = &newID
+				m.owner[newID] = c
+				m.allReqs = append(m.allReqs, newID)
+				c.pending = nil
+				c.reqCancel = false
 			}
 			// the requester comes back with a new request
 			if rapid.Bool().Draw(t, "requesterBack") {
